@@ -31,6 +31,7 @@ var hostileLines = func() []string {
 		deep, deepArr, deep[:100], long, "k=\"unterminated", "=v", "a=b\"c", "\xff\xfe\x00", "k=\xff", `{"a":{"b":[1,{"c":null}]}}`, `[1,2,3]`, `"just a string"`, `null`,
 		"\x1b[31mred\x1b[0m \x1b[", "10.0.0.1 ::1 999.999.999.999 1:2:3:4:5:6:7:8:9", "v=1e999 d=99999999999h sz=99999999999999999999PB", "v=NaN d=-5s sz=-1", `<a> <b>`, "a\nb\r\n",
 		`{"a.b":1,"a_b":2,"1a":3,"":4}`, "level=info msg=\"x\" msg=\"y\"", strings.Repeat("a", 70000),
+		`{"a":[null]}`, `{"a":[1,null,2],"b":null}`, `[null]`, `{"a":[[null]],"c":{"d":[null,{"e":null}]}}`, `{"a":[],"b":{}}`,
 		// shapes the ip() scanners meet: colons without an address, addresses glued to punctuation, over-long groups
 		"::", "std::vector<int> x:: y", "fe80::1: timeout", "addr=::1 addr=10.0.0.1 addr=", "1.2.3.4.5.6 :::: 1:: ::g a:b::c", "[::1]:80 10.0.0.1:8080 256.1.1.1 1.2.3", ":", "::ffff:1.2.3.4 1::2::3",
 	}
